@@ -1795,6 +1795,28 @@ fn engineered() -> Vec<Case> {
         agg(uni(false, false), Src::Batch { variant: 0, bad: true }, CacheUse::Reuse(0), false),
         agg(Src::Uni { alt: false, big: false, bad: true }, bat(1), CacheUse::Reuse(0), true),
     ]);
+    // a populated slot that misses is refilled; the refilled entry must be complete (data AND
+    // prover of the new call): fill under one packing / FRI setting, change it, miss with another
+    // circuit, then hit with exactly that circuit again
+    for change in [
+        Step::ChangeParams { packing: Some(1), fri: None, qpow: None },
+        Step::ChangeParams { packing: Some(2), fri: None, qpow: None },
+        Step::ChangeParams { packing: None, fri: Some(1), qpow: None },
+    ] {
+        hs.push(vec![
+            agg(uni(false, false), bat(0), CacheUse::Fresh, false),
+            change.clone(),
+            agg(bat(0), bat(2), CacheUse::Reuse(0), false),
+            agg(bat(0), bat(2), CacheUse::Reuse(0), false),
+            nl(last(), CacheUse::None),
+        ]);
+        hs.push(vec![
+            nl(uni(false, false), CacheUse::Fresh),
+            change.clone(),
+            nl(bat(0), CacheUse::Reuse(0)),
+            nl(bat(0), CacheUse::Reuse(0)),
+        ]);
+    }
     let mut out = vec![];
     for (i, steps) in hs.into_iter().enumerate() {
         for field in 0..2u8 {
